@@ -95,6 +95,88 @@ def scal(k):
     return trunc(k)
 
 
+# ---- recursive spec functions: n-th power in both rings, powers of sqrt2 = w - w^3 in Z[w] --------------------------------
+_a, _b, _c, _d, _n = z3.Ints("sa sb sc sd sn")
+PA2 = z3.RecFunction("PA2", z3.IntSort(), z3.IntSort(), z3.IntSort(), z3.IntSort())
+PB2 = z3.RecFunction("PB2", z3.IntSort(), z3.IntSort(), z3.IntSort(), z3.IntSort())
+z3.RecAddDefinition(PA2, [_a, _b, _n], z3.If(_n <= 0, z3.IntVal(1), PA2(_a, _b, _n - 1) * _a + 2 * PB2(_a, _b, _n - 1) * _b))
+z3.RecAddDefinition(PB2, [_a, _b, _n], z3.If(_n <= 0, z3.IntVal(0), PA2(_a, _b, _n - 1) * _b + PB2(_a, _b, _n - 1) * _a))
+
+
+def pow2_spec(x, n):
+    if isinstance(n, int) and all(isinstance(c, int) for c in x):
+        r = (1, 0)
+        for _ in range(n):
+            r = mul2(r, x)
+        return r
+    return (PA2(x[0], x[1], n), PB2(x[0], x[1], n))
+
+
+# n-th power in Z[w]: uninterpreted, used only through explicit INSTANCES of its two definitional axioms
+#   PO(x, 0) = 1      and      n >= 0  =>  PO(x, n+1) = PO(x, n) * x
+PO = [z3.Function(f"PO{i}", *([z3.IntSort()] * 6)) for i in range(4)]   # PO_i(d,c,b,a,n): i-th ascending coefficient of x^n
+
+
+def powo_spec(x, n):
+    if isinstance(n, int) and all(isinstance(c, int) for c in x):
+        r = (1, 0, 0, 0)
+        for _ in range(n):
+            r = mulo(r, x)
+        return r
+    return tuple(PO[i](x[0], x[1], x[2], x[3], n) for i in range(4))
+
+
+def powo_axioms(x, ns):
+    """instances of the definitional axioms at the exponents ns"""
+    out = [z3.And(*[p == q for p, q in zip(powo_spec(x, z3.IntVal(0)), (1, 0, 0, 0))])]
+    for n in ns:
+        n = z3.IntVal(n) if isinstance(n, int) else n
+        step = z3.And(*[p == q for p, q in zip(powo_spec(x, n + 1), mulo(powo_spec(x, n), x))])
+        out.append(z3.Implies(n >= 0, step))
+    return out
+
+
+SQRT2_O = (0, 1, 0, -1)     # sqrt2 = w - w^3, ascending coefficients
+
+
+def sq_spec(n):
+    """(sqrt 2)^n as an element of Z[w]"""
+    return powo_spec(SQRT2_O, n)
+
+
+def mul_sqrt2(x):
+    """x * sqrt2 in Z[w] (a linear map)"""
+    return mulo(x, SQRT2_O)
+
+
+# LIT_i(x, n) = i-th coefficient of x * sqrt2^n, specified by iteration of the linear map (so that the loop VCs are linear):
+#   LIT(x, 0) = x        n >= 0  =>  LIT(x, n+1) = LIT(x * sqrt2, n)
+LIT = [z3.Function(f"LIT{i}", *([z3.IntSort()] * 6)) for i in range(4)]
+
+
+def lit_spec(x, n):
+    if isinstance(n, int) and all(isinstance(c, int) for c in x):
+        for _ in range(n):
+            x = mul_sqrt2(x)
+        return tuple(x)
+    return tuple(LIT[i](x[0], x[1], x[2], x[3], n) for i in range(4))
+
+
+def lit_axioms(x, ns):
+    x = tuple(z3.IntVal(c) if isinstance(c, int) else c for c in x)
+    out = [z3.And(*[p == q for p, q in zip(lit_spec(x, z3.IntVal(0)), x)])]
+    for n in ns:
+        n = z3.IntVal(n) if isinstance(n, int) else n
+        out.append(z3.Implies(n >= 0, z3.And(*[p == q for p, q in zip(lit_spec(x, n + 1), lit_spec(mul_sqrt2(x), n))])))
+    return out
+
+
+def abso(x):
+    """integer norm of Z[w]: N(x) = norm2( x * conj(x) viewed in Z[sqrt2] )"""
+    nn = mulo(x, conjo(x))      # = (p, q, 0, -q)  i.e.  p + q*sqrt2
+    return nn[0] * nn[0] - 2 * nn[1] * nn[1]
+
+
 def build(tier, seed):
     plan = Plan("C16", level="proof")
     plan.explanation = ("The real method bodies of rings.py are extracted with ast on every run and executed symbolically "
@@ -184,6 +266,40 @@ def build(tier, seed):
         Case("other:int", {"self": ZO, "other": Int},
              ensures=lambda o, r, n: eqv(vo(r), tuple(S.fdiv(c, o.other) for c in vo(o.self))),
              raises={"ZeroDivisionError": lambda o: o.other == 0}, must_return=lambda o: o.other != 0)]))
+    # ---- powers (loop invariant: result == self^(p0 - power + 1))
+    pow_raises = {"ValueError": lambda o: o.power < 0}
+    contracts.append(FnContract(w, "ZSqrtTwo.__pow__", [
+        Case("power:int", {"self": Z2, "power": Int},
+             ensures=lambda o, r, n: eqv(v2(r), pow2_spec(v2(o.self), o.power)),
+             raises=pow_raises, must_return=lambda o: o.power >= 0,
+             loops={0: LoopSpec(lambda v: And(eqv(v2(v.result), pow2_spec(v2(v.self), v.old.power - v.power + 1)),
+                                              v.power >= 1, v.power <= v.old.power, eqv(v2(v.self), v2(v.old.self))),
+                                decreases=lambda v: v.power)})]))
+    contracts.append(FnContract(w, "ZOmega.__pow__", [
+        Case("power:int", {"self": ZO, "power": Int},
+             ensures=lambda o, r, n: eqv(vo(r), powo_spec(vo(o.self), o.power)),
+             raises=pow_raises, must_return=lambda o: o.power >= 0,
+             axioms=lambda o, r, n: powo_axioms(vo(o.self), [0]),
+             loops={0: LoopSpec(lambda v: And(eqv(vo(v.result), powo_spec(vo(v.self), v.old.power - v.power + 1)),
+                                              v.power >= 1, v.power <= v.old.power, eqv(vo(v.self), vo(v.old.self))),
+                                decreases=lambda v: v.power,
+                                axioms=lambda v: powo_axioms(vo(v.self), [0, v.old.power - v.power, v.old.power - v.power + 1]))})]))
+    contracts.append(FnContract(w, "ZOmega.__abs__", [Case("", {"self": ZO}, ensures=lambda o, r, n: r == abso(vo(o.self)))]))
+    contracts.append(FnContract(w, "ZOmega.from_sqrt_pair", [
+        Case("", {"cls": T("classref", "ZOmega"), "alpha": Z2, "beta": Z2, "shift": ZO},
+             ensures=lambda o, r, n: eqv(vo(r), addo(addo((o.alpha.a, o.alpha.b, 0, -o.alpha.b),
+                                                          mulo((0, 0, 1, 0), (o.beta.a, o.beta.b, 0, -o.beta.b))), vo(o.shift))))]))
+    contracts.append(FnContract(w, "ZSqrtTwo.sqrt", [
+        Case("", {"self": Z2}, ensures=lambda o, r, n: True if r is None else eqv(mul2(v2(r), v2(r)), v2(o.self)),
+             raises={"ValueError": lambda o: o.self.a < 0})]))   # isqrt of a negative number: only for negative elements
+    # normalisation: value preserved  res * sqrt2^ix == self (as LIT(res, ix) == self), ix >= 0, result not divisible by sqrt2
+    contracts.append(FnContract(w, "ZOmega.normalize", [
+        Case("", {"self": ZO},
+             ensures=lambda o, r, n: And(eqv(lit_spec(vo(r[0]), r[1]), vo(o.self)), r[1] >= 0,
+                                         Or(S.mod(r[0].a + r[0].c, 2) != 0, S.mod(r[0].b + r[0].d, 2) != 0)),
+             axioms=lambda o, r, n: lit_axioms(vo(r[0]), []),
+             loops={0: LoopSpec(lambda v: And(eqv(lit_spec(vo(v.res), v.ix), vo(v.old.self)), v.ix >= 0),
+                                axioms=lambda v: lit_axioms(vo(v.res), [v.ix - 1, v.ix]))})]))
     for fc in contracts:
         plan.fn_under_contract(fc.world.file, fc.qualname)
         for ob in obligations_for("C16", fc, tier):
@@ -218,6 +334,16 @@ def build(tier, seed):
     ]
     for nm, vs, goal in lem:
         plan.add(lemma("C16", nm, vs, goal))
+    # LIT(x, n) == x * (sqrt2)^n : induction on n.  base: n = 0.  step: IH for all x at n (instantiated at x*sqrt2) => n+1
+    nn = z3.Int("n")
+    base = z3.And(*[p == q for p, q in zip(lit_spec(XO, z3.IntVal(0)), mulo(XO, powo_spec(SQRT2_O, z3.IntVal(0))))])
+    plan.add(lemma("C16", "ZOmega/LIT==mul-by-sqrt2-power/base", list(XO), base,
+                   assumptions=lit_axioms(XO, []) + powo_axioms(SQRT2_O, [])))
+    Lx = mul_sqrt2(XO)
+    ih = z3.And(*[p == q for p, q in zip(lit_spec(Lx, nn), mulo(Lx, powo_spec(SQRT2_O, nn)))])
+    step = z3.And(*[p == q for p, q in zip(lit_spec(XO, nn + 1), mulo(XO, powo_spec(SQRT2_O, nn + 1)))])
+    plan.add(lemma("C16", "ZOmega/LIT==mul-by-sqrt2-power/step", list(XO) + [nn], step,
+                   assumptions=[nn >= 0, ih] + lit_axioms(XO, [nn]) + powo_axioms(SQRT2_O, [nn])))
     # |x|^2-type norm of ZOmega (the integer __abs__) is multiplicative: degree-8 identity
     plan.unverified = ["_primality_test vs an oracle (bounded stand-in only, thorough tier)", "termination of the loops",
                        "np.isclose branches of __eq__ (float comparands are outside the ring property)"]
